@@ -224,6 +224,18 @@ def run_sequence(case, seed, length, start, allow_tf, plan=None):
             pose = pc.build_pose(case)
             if start == "torch": pose = Pose(pose.header, pose.body.torch())
             if start == "tf": pose = Pose(pose.header, pose.body.tensorflow())
+            # a third of the NumPy sequences start from the pose as READ from its own file (first read in a clean cache), the way poses usually come into being
+            W0 = built = None
+            if start == "numpy" and seed % 3 == 0:
+                from pose_format.pose_header import PoseHeaderCache
+                try:
+                    buf = io.BytesIO(); pose.write(buf)
+                    PoseHeaderCache.clear_cache()
+                    built, W0 = pose, buf.getvalue()
+                    pose = Pose.read(W0)
+                    out["via_read"] = True
+                except Exception:
+                    W0 = built = None
             b0 = invariant(pose)
             out["steps"].append({"op": "construct", "backend": kind_of(pose.body), "shape": list(arrays(pose.body)[0].shape), "broken": b0})
             for step_no in range(max(length, len(plan or []))):
@@ -246,6 +258,18 @@ def run_sequence(case, seed, length, start, allow_tf, plan=None):
                 out["steps"].append(st)
                 if b:
                     return out
+            if W0 is not None and not b0:
+                # the file the sequence started from still reads back as it was written, whatever was done to the pose read from it
+                try:
+                    again = Pose.read(W0)
+                    hv = lambda h: ([h.dimensions.width, h.dimensions.height, h.dimensions.depth], [(c.name, list(c.points), [tuple(l) for l in c.limbs], [tuple(x) for x in c.colors], c.format) for c in h.components])
+                    d0, m0, c0 = arrays(built.body); d1, m1, c1 = arrays(again.body)
+                    if hv(again.header) != hv(built.header):
+                        out["history"] = "the header of the start pose's file reads back differently after operations on the pose read from it"
+                    elif d0.shape != d1.shape or not np.array_equal(m0, m1) or not np.array_equal(np.where(m0, 0, d0).astype(np.float32), np.where(m1, 0, d1).astype(np.float32)):
+                        out["history"] = "the body of the start pose's file reads back differently after operations on the pose read from it"
+                except Exception as e:
+                    out["history"] = "the start pose's file can no longer be read: %s" % type(e).__name__
             if kind_of(pose.body) == "numpy" and not b0:
                 out["roundtrip"] = roundtrip(pose)
     return out
